@@ -206,6 +206,7 @@ func runC05(c *Ctx) {
 	r.Explanation = "Decides failure atomicity and well-formedness structurally: on every feasible path of RegisterPipeline, RegisterNode, RemoveNode (through removeNode/unregisterNode) ending in a non-nil error, and every path of RemovePipelineAndNodes returning false, no registry effect (assignment/delete on Broker.nodes, store to a usage record, graphMap.Store/Delete, node Close) precedes the return — interprocedurally, a failure-atomic callee whose failure is established on the path contributes nothing; the commit point graphMap.Store is reached only after validate, every node lookup, linking, structural validation (with a nil parent) and the overwrite test succeeded; Pipeline.validate's four conditions each force a non-nil result and the all-clear path returns nil; the full decision table of the structural validator's per-node step; IsAnyPipelineRegistered. Equivalence of the composed recursive predicate with the specification over all type sequences is not decided. One recorded known finding: RemoveNode returns the Close error after the node was unregistered and closed. C05.map: graphMap.Store/Delete forward their arguments unconditionally."
 	r.NotDecided = []string{"equivalence of the recursive validator + linkNodes with the specification over all node-type sequences", "insertion of a fresh empty graph by a failing RegisterPipeline is exempt by table (adds no pipeline, node or usage)"}
 	c.ruleGraphMap("", "C05.map")
+	c.ruleOneSection("C05.section")
 	ef := c.newEffects()
 	type target struct {
 		recv, name string
@@ -252,13 +253,31 @@ func runC05(c *Ctx) {
 					}
 				}
 			}
-			// construct keyed by the kind of the first effect, not by line
-			kind := effs[0]
-			if i := strings.Index(kind, " at "); i > 0 {
-				kind = kind[:i]
+			// one construct per distinct kind of effect (not per line): a recorded finding about one
+			// effect must not hide a different effect that later appears on the same failing path
+			seenKind := map[string]bool{}
+			// the call whose error is handed back unchanged is the failing operation itself, not an
+			// effect preceding the failure (same delegation as in the single-effect case above)
+			failing := ""
+			if rv := pa.RetVals(); !t.boolFail && rv != nil {
+				if idx, ok := returnsError(fn.Signature); ok && idx < len(rv) {
+					if call, ok := rv[idx].(*ssa.Call); ok && call.Call.StaticCallee() != nil {
+						failing = "call of " + funcShort(call.Call.StaticCallee()) + " "
+					}
+				}
 			}
-			r.Bad("C05.atomic", p.ShortFn(fn)+":error-after:"+kind, p.InstrPos(pa.End),
-				"a call that reports failure has already changed the registry: "+strings.Join(effs, "; "), p.PathSummary(pa))
+			for _, e := range effs {
+				kind := e
+				if i := strings.Index(kind, " at "); i > 0 {
+					kind = kind[:i]
+				}
+				if seenKind[kind] || (failing != "" && strings.HasPrefix(kind, failing)) {
+					continue
+				}
+				seenKind[kind] = true
+				r.Bad("C05.atomic", p.ShortFn(fn)+":error-after:"+kind, p.InstrPos(pa.End),
+					"a call that reports failure has already changed the registry: "+strings.Join(effs, "; "), p.PathSummary(pa))
+			}
 		}
 		if nFail == 0 && t.name != "RemovePipeline" && t.name != "removeNode" {
 			r.Und("C05.atomic", p.ShortFn(fn), p.Pos(fn.Pos()), "no failing path found")
